@@ -62,7 +62,18 @@ func auditProblems(wd string, exp *ref.Result, ti *mon.TraceIndex) (ps []mon.Pro
 					break
 				}
 			}
-			if strings.Join(f, " ") != strings.Join(st.Argv, " ") {
+			// (free-text "note=" arguments contain characters the shell rewrites - backslashes; they are compared as
+			// recorded text with the reference, not with what the command saw)
+			dropNotes := func(l []string) []string {
+				var o []string
+				for _, x := range l {
+					if !strings.HasPrefix(x, "note=") {
+						o = append(o, x)
+					}
+				}
+				return o
+			}
+			if strings.Join(dropNotes(f), " ") != strings.Join(dropNotes(st.Argv), " ") {
 				ps = append(ps, mon.Problem{Sig: "audit-command-not-executed-command", Msg: fmt.Sprintf("task %s: recorded command arguments %v, the command itself saw %v", t.Key, f, st.Argv)})
 			}
 		}
@@ -73,7 +84,7 @@ func auditProblems(wd string, exp *ref.Result, ti *mon.TraceIndex) (ps []mon.Pro
 func c10(args []string) {
 	c := chk.New("C10", "exploration", args)
 	c.Build(false)
-	c.Rule("[stale audit files] history: run with one tagging rule, output files deleted while their .audit.json files stay, run with another tagging rule - the records the second run writes carry the second run's tags only; generated graphs with multi-input / multi-output tasks, parameters, MapToTags components (tags consumed downstream in commands and default output names), StreamToSubStream + joined in-ports, fan-in / fan-out, Prepend, depth <= 6; oracle: every finalized output has a parsable <path>.audit.json equal to the reference lineage tree in ProcessName, Command, Params, Tags, OutFiles and Upstream key set, recursively down to the source files (empty records), timing sane (start <= finish, duration >= 0, start non-zero); the recorded command equals the argv the command itself logged; parameter ports that exist only through InParam(name) (value used in the SetOut pattern, not in the command) belong to the record too. distinct_nontrivial = distinct (graph shape, config) with >= 3 audit records of depth >= 2")
+	c.Rule("[stale audit files] history: run with one tagging rule, output files deleted while their .audit.json files stay, run with another tagging rule - the records the second run writes carry the second run's tags only; generated graphs (a quarter of the commands carry a free-text argument with JSON-escape look-alikes such as \\u0026, printf verbs or backslashes) with multi-input / multi-output tasks, parameters, MapToTags components (tags consumed downstream in commands and default output names), StreamToSubStream + joined in-ports, fan-in / fan-out, Prepend, depth <= 6; oracle: every finalized output has a parsable <path>.audit.json equal to the reference lineage tree in ProcessName, Command, Params, Tags, OutFiles and Upstream key set, recursively down to the source files (empty records), timing sane (start <= finish, duration >= 0, start non-zero); the recorded command equals the argv the command itself logged; parameter ports that exist only through InParam(name) (value used in the SetOut pattern, not in the command) belong to the record too. distinct_nontrivial = distinct (graph shape, config) with >= 3 audit records of depth >= 2")
 	c.Assume("ids and absolute times are not compared", "MapToTags is only placed on streams it consumes alone (the component mutates the record it shares with the producer; with sibling consumers that is the C12 race)")
 	rng := c.Rand("c10")
 	type job struct {
@@ -89,6 +100,13 @@ func c10(args []string) {
 		o := gen.GraphOpts{MaxProcs: 7, Lens: []int{1, 2, 3, b + 1}, Buf: b, FanIn: true, Params: true, GoFunc: true, WriteAPI: true, MultiOut: true, Portless: true, SubDirs: true,
 			ParamComb: true, Prepend: true, Cores: mt, MaxTasks: mt, SleepMax: 10, MapTags: true, Join: true, NoUnequal: true}
 		s := gen.Graph(rng, fmt.Sprintf("g%d", g), o)
+		for k, p := range s.Procs {
+			// text that looks like an escape sequence of the record's own encoding (a JSON document or a query string
+			// passed on the command line), and printf verbs
+			if p.Kind == spec.KCmd && (g+k)%4 == 0 && !strings.Contains(p.Cmd, " -- ") {
+				p.Cmd += []string{" note=q\\u0026lang\\u003cen\\u003e", " note=%d%s-100%", " note=a\\\\b\\n\\t"}[(g+k)/4%3]
+			}
+		}
 		exp := evalRef(s, nil)
 		if exp.Err != "" {
 			c.Count("generator_rejects", 1)
